@@ -10,6 +10,7 @@ normaliser; the clauses the real pass violates are refuted by `decide` witnesses
 -/
 import Comrak.Lemmas.Anchor
 import Comrak.Lemmas.Footnotes
+import Comrak.Lemmas.FootnotesGen
 namespace Comrak.C15
 open Comrak Bytes
 
@@ -116,5 +117,117 @@ theorem defs_rendered_once_counterexample :
     since the `fix:` commit the reference copies the stored name, and the clause holds on the witness. -/
 theorem refs_point_to_rendered_def_after_fix :
     refsPointOk ⟨id, id⟩ (processFootnotes nbspNorm W.nbsp) = true := by decide
+
+/-! ## Footnotes: the remaining clauses, for every tree and label normaliser, outside the defect classes
+
+Hypotheses (decidable predicates on the input tree, Lemmas/FootnotesGen.lean):
+* `rootPlain t`      - the root is neither a definition (the pass returns such a tree unchanged) nor a reference;
+* `leafRefsT t`      - reference nodes are leaves (true of every tree the inline parser builds);
+* `noNestedDefs t`   - no definition nested in a definition (known finding C15-nested-def);
+* `noRefInDropped N t` - no *resolvable* reference inside a definition that is dropped, i.e. shadowed by a later
+                       definition with the same folded label or not referenced at all (C15-ref-in-discarded-def);
+* `labelsCompat N t` - on the definitions' labels `keep`-equal implies `fold`-equal (a condition on the normaliser
+                       parameter; true of `normalize_label`).
+Idempotence of `N.keep` is NOT needed since the `fix:` commit (the reference copies the stored name). -/
+
+/-- **Every reference points to a rendered definition**: it carries `ix ≥ 1` and the name of the `ix`-th
+    definition under the root - for every tree with leaf references and every normaliser; in particular also with
+    nested definitions, references in dropped definitions and non-idempotent label normalisation. -/
+theorem refs_point_to_rendered_def_partial (N : LabelNorm) (t : Tree)
+    (hr : rootPlain t = true) (hl : leafRefsT t = true) :
+    refsPointOk N (processFootnotes N t) = true :=
+  refsPointOk_gen N t hr hl
+
+/-- **No definition name is rendered twice.** -/
+theorem defs_rendered_once_partial (N : LabelNorm) (t : Tree)
+    (hr : rootPlain t = true) (hl : leafRefsT t = true) (hn : noNestedDefs t = true)
+    (hc : labelsCompat N t = true) :
+    defsOnceOk (processFootnotes N t) = true :=
+  defsOnceOk_gen N t hr hl hn hc
+
+/-- **The references to the `i`-th rendered definition carry the `ref_num`s `1 .. total_references`, each once.** -/
+theorem ref_nums_1_to_total_partial (N : LabelNorm) (t : Tree)
+    (hr : rootPlain t = true) (hl : leafRefsT t = true) (hd : noRefInDropped N t = true) :
+    refNumsOk (processFootnotes N t) = true :=
+  refNumsOk_gen N t hr hl hd
+
+/-- **Unreferenced definitions are omitted**: every definition in the output is one of the numbered definitions
+    under the root, and each of those is referenced from the output. -/
+theorem unreferenced_omitted_partial (N : LabelNorm) (t : Tree)
+    (hr : rootPlain t = true) (hl : leafRefsT t = true) (hn : noNestedDefs t = true)
+    (hd : noRefInDropped N t = true) :
+    unreferencedOmittedOk (processFootnotes N t) = true :=
+  unreferencedOmittedOk_gen N t hr hl hn hd
+
+/-- The output, explicitly: the rendered definitions are the numbered keys in `ix` order, each with the stored
+    name of its slot and the number of resolvable references to it in the whole input. -/
+theorem rendered_defs_are_numbered_keys (N : LabelNorm) (t : Tree)
+    (hr : rootPlain t = true) (hl : leafRefsT t = true) :
+    rootDefs (processFootnotes N t) =
+      (fnFin N t).seen.map fun k => (nameOf (fnD N t) k, (fnKeys N t).count k) := by
+  rw [out_rootDefs N t hr hl]
+  apply List.map_congr_left
+  intro k _
+  rw [fnHist_count]
+
+/-! Non-vacuity: a tree with case variants, a reference inside a live definition, an unresolved name, a definition
+    shadowed by a later duplicate (holding an unresolvable reference) and an unreferenced definition satisfies
+    every hypothesis. -/
+example : rootPlain W.clean2 = true ∧ leafRefsT W.clean2 = true ∧ noNestedDefs W.clean2 = true ∧
+    noRefInDropped asciiNorm W.clean2 = true ∧ labelsCompat asciiNorm W.clean2 = true := by decide
+example : rootDefs (processFootnotes asciiNorm W.clean2) = [([0x41], 3), ([0x62], 1)] ∧
+    allRefsT (processFootnotes asciiNorm W.clean2) =
+      [([0x41], 1, 1), ([0x62], 1, 2), ([0x41], 2, 1), ([0x41], 3, 1)] := by decide
+example : refNumsOk (processFootnotes asciiNorm W.clean2) = true :=
+  ref_nums_1_to_total_partial _ _ (by decide) (by decide) (by decide)
+example : rootPlain W.clean = true ∧ leafRefsT W.clean = true ∧ noNestedDefs W.clean = true ∧
+    noRefInDropped asciiNorm W.clean = true ∧ labelsCompat asciiNorm W.clean = true := by decide
+
+/-! ### Each hypothesis is needed -/
+
+/-- `noRefInDropped` is what fails on the witness of `ref_nums_1_to_total_counterexample`
+    (all other hypotheses hold there). -/
+theorem noRefInDropped_needed_for_ref_nums :
+    rootPlain W.discarded = true ∧ leafRefsT W.discarded = true ∧ noNestedDefs W.discarded = true ∧
+    labelsCompat asciiNorm W.discarded = true ∧ noRefInDropped asciiNorm W.discarded = false ∧
+    refNumsOk (processFootnotes asciiNorm W.discarded) = false := by decide
+
+/-- ... and for `unreferenced_omitted`: a definition referenced only from a dropped definition is rendered
+    without any reference in the output. -/
+theorem noRefInDropped_needed_for_unreferenced :
+    rootPlain W.onlyFromDropped = true ∧ leafRefsT W.onlyFromDropped = true ∧ noNestedDefs W.onlyFromDropped = true ∧
+    labelsCompat asciiNorm W.onlyFromDropped = true ∧ noRefInDropped asciiNorm W.onlyFromDropped = false ∧
+    unreferencedOmittedOk (processFootnotes asciiNorm W.onlyFromDropped) = false := by decide
+
+/-- `noNestedDefs` is what fails on the witnesses of `unreferenced_omitted_counterexample` and
+    `defs_rendered_once_counterexample`. -/
+theorem noNestedDefs_needed :
+    (rootPlain W.nested = true ∧ leafRefsT W.nested = true ∧ noRefInDropped asciiNorm W.nested = true ∧
+      labelsCompat asciiNorm W.nested = true ∧ noNestedDefs W.nested = false ∧
+      unreferencedOmittedOk (processFootnotes asciiNorm W.nested) = false) ∧
+    (rootPlain W.nestedDup = true ∧ leafRefsT W.nestedDup = true ∧ noRefInDropped asciiNorm W.nestedDup = true ∧
+      labelsCompat asciiNorm W.nestedDup = true ∧ noNestedDefs W.nestedDup = false ∧
+      defsOnceOk (processFootnotes asciiNorm W.nestedDup) = false) := by decide
+
+/-- `labelsCompat`: with a normaliser whose preserved form identifies labels that the folded form
+    distinguishes, two footnotes are rendered under one name. -/
+theorem labelsCompat_needed :
+    rootPlain W.two = true ∧ leafRefsT W.two = true ∧ noNestedDefs W.two = true ∧
+    noRefInDropped constKeepNorm W.two = true ∧ labelsCompat constKeepNorm W.two = false ∧
+    defsOnceOk (processFootnotes constKeepNorm W.two) = false := by decide
+
+/-- `leafRefsT`: below an unresolvable reference node the pass does not look; a reference there keeps `ix = 0`. -/
+theorem leafRefs_needed :
+    rootPlain W.leafBad = true ∧ leafRefsT W.leafBad = false ∧
+    refsPointOk asciiNorm (processFootnotes asciiNorm W.leafBad) = false := by decide
+
+/-- `rootPlain`: a tree whose root is a definition is returned unchanged. -/
+theorem rootPlain_needed :
+    rootPlain W.rootDef = false ∧ leafRefsT W.rootDef = true ∧
+    refsPointOk asciiNorm (processFootnotes asciiNorm W.rootDef) = false := by decide
+
+/-- Idempotence of `keep` is not among the hypotheses: the witness of the repaired defect satisfies them. -/
+example : rootPlain W.nbsp = true ∧ leafRefsT W.nbsp = true ∧ noNestedDefs W.nbsp = true ∧
+    noRefInDropped nbspNorm W.nbsp = true ∧ labelsCompat nbspNorm W.nbsp = true := by decide
 
 end Comrak.C15
